@@ -129,7 +129,7 @@ class PathOut:
     def __init__(self, obligations=(), sym_out=None, witness=None, exc=None, desc=None, prefer=()):
         self.prefer = list(prefer)     # soft constraints for the witness model (stay away from float-fragile ties)
         self.obligations = list(obligations)
-        self.sym_out = sym_out or {}
+        self.sym_out = sym_out if sym_out is not None else {}
         self.witness = witness
         self.exc = exc
         self.desc = desc
